@@ -49,14 +49,17 @@ ASSUMPTIONS = [
 RULE = ('corpus + directed prefix (witness of every known finding; every schema method once at class and instance level) + '
         'exhaustive grid Integer/Number x lower bound {None,0,0.5} x upper bound {None,5,5.5} x inclusivity^2 x '
         'allow_None x boundary values with boundary probes + random classes of 1-5 parameters over the 15 types with '
-        'values accepted by the real Parameter; Cls.param.schema() is compared structurally with the model, the '
+        'values accepted by the real Parameter; a quarter of the instance-level cases edit the instance\'s own Parameter '
+        'objects (bounds / inclusive_bounds / allow_None) after construction and then assign values valid only under the '
+        'edit; obj.param.schema() (the class\'s for class-level cases) is compared structurally with the model, the '
         'serialized state with the model, accept/reject of every numeric probe with the model; the Lean validator '
         'judges well-formedness, validation of the state, rejection of out-of-bounds probes. non-trivial = oracle '
         'applicable and (a non-None value of a non-name parameter or an out-of-bounds probe); distinct = distinct canonical case')
 COVERAGE_TARGETS = [f'{t}:value' for t in G.TYPES16] + [f'{t}:nullable' for t in G.TYPES16 if t not in ('Selector', 'ListSelector')] + \
                    [f'{t}:{lo}{hi}' for t in ('Integer', 'Number') for lo in ('lo-', 'lo[', 'lo(') for hi in ('hi-', 'hi]', 'hi)')] + \
                    ['Integer:nobounds', 'Range:lo[hi]', 'List:item_type', 'List:untyped', 'probe:out-of-bounds',
-                    'Selector:none', 'ListSelector:none', 'level:class', 'level:instance']
+                    'Selector:none', 'ListSelector:none', 'level:class', 'level:instance',
+                    'instance-edits', 'edit:bounds', 'edit:inclusive_bounds', 'edit:allow_None']
 
 NONE = {'t': 'none'}
 _XV = {}
@@ -125,12 +128,14 @@ def run_impl(case):
             return {'invalid': True}
         types = {d['name']: d['type'] for d in case['params']}
         out = {'invalid': False}
-        out['schema'] = _res(lambda: G.enc_fields(cls.param.schema(), {}))
+        out['schema'] = _res(lambda: G.enc_fields(obj.param.schema(), {}))
         out['ser'] = _res(lambda: G.enc_fields(json.loads(obj.param.serialize_parameters()), types))
-        out['allow_none'] = [[n, bool(cls.param[n].allow_None)] for n in names]
+        out['allow_none'] = [[n, bool(obj.param[n].allow_None)] for n in names]
         probes = []
         if case['probes']:
-            inst = cls()
+            # probes go through the Parameter objects whose schema was taken: a fresh instance, or the
+            # edited instance itself (its state has been recorded above)
+            inst = obj if case.get('edits') else cls()
             for n, v in case['probes']:
                 x = G.dec_tree(v)
                 try:
@@ -158,7 +163,7 @@ def _num_tree(x):
 
 def add_probes(case, rng=None):
     probes = []
-    for d in case['params']:
+    for d in G.edited_params(case):
         if d['type'] in ('Integer', 'Number') and d.get('bounds') is not None:
             pts = set()
             for b in d['bounds']:
@@ -257,6 +262,17 @@ def directed():
             yield add_probes(single(decl, v))
         yield add_probes(single(decl, v, level='class'))
     yield add_probes(single({'type': 'Integer', 'doc': 'some words here', 'label': 'A label'}, enc_val(3)))
+    # per-instance edits of the Parameter objects, then values valid only under the edit
+    c = single({'type': 'Number', 'bounds': [ev(0), ev(10)], 'default': ev(1.5)}, ev(1.5))
+    yield add_probes(dict(c, edits=[['p0', 'bounds', [ev(0), ev(100)]]], final=[['p0', ev(50)]]))
+    c = single({'type': 'Integer', 'bounds': [ev(1), ev(5)], 'inclusive': [True, False], 'default': ev(3)}, ev(3))
+    yield add_probes(dict(c, edits=[['p0', 'inclusive_bounds', [True, True]]], final=[['p0', ev(5)]]))
+    c = single({'type': 'String', 'default': ev('x')}, ev('x'))
+    yield add_probes(dict(c, edits=[['p0', 'allow_None', True]], final=[['p0', NONE]]))
+    c = single({'type': 'Range', 'bounds': [ev(0), ev(10)], 'default': ev((1, 2))}, ev((1, 2)))
+    yield add_probes(dict(c, edits=[['p0', 'bounds', None]], final=[['p0', ev((-5, 50.5))]]))
+    c = single({'type': 'Number', 'bounds': [ev(0), ev(10)], 'default': ev(1.5)}, ev(1.5))
+    yield add_probes(dict(c, edits=[['p0', 'bounds', [ev(0), ev(100)]], ['p0', 'allow_None', True]], final=[]))
 
 
 def cases(rng, tier, worker, nworkers):
@@ -278,7 +294,10 @@ def cases(rng, tier, worker, nworkers):
     opts_clean = {'small_year': 0.0}
     opts_all = {'small_year': 0.0, 'findings': True, 'inf_bounds': 0.08}
     for i in range(n_random):
-        yield fin(add_probes(G.gen_case(rng, param, G.TYPES16, opts_clean if i % 3 else opts_all), rng))
+        c = G.gen_case(rng, param, G.TYPES16, opts_clean if i % 3 else opts_all)
+        if i % 4 == 1:
+            c = G.gen_edits(rng, param, c)
+        yield fin(add_probes(c, rng))
 
 
 def tags(case, impl):
@@ -287,6 +306,9 @@ def tags(case, impl):
         t.append('type:' + d['type'])
     if isinstance(impl, dict) and impl.get('invalid'):
         t.append('invalid-state')
+    if case.get('edits'):
+        t.append('instance-edits')
+        t += ['edit:' + e[1] for e in case['edits']]
     if isinstance(impl, dict) and impl.get('js') is not None:
         t.append('jsonschema-cross-validated')
     return t
